@@ -47,8 +47,16 @@ fn stress(seed: u64, millis: u64) {
         (0..40).map(|i| format!("line{}", i)).collect::<Vec<_>>().join("\n"), (0..25).map(|i| format!("{}{}", "x".repeat(i % 7), i)).collect::<Vec<_>>().join("\r\n") + "\r",
         (0..700).map(|i| format!("var line{} = {};", i, i * 7)).collect::<Vec<_>>().join("\n")];
     let start = std::time::Instant::now(); let mut rounds = 0u64; let mut calls = 0u64; let mut bad: Vec<String> = vec![];
+    // watchdog: a round in which no thread completes a call for 10 s is a deadlock (the join below would wait for ever)
+    static PROGRESS: std::sync::atomic::AtomicU64 = std::sync::atomic::AtomicU64::new(0);
+    static CURRENT: Mutex<String> = Mutex::new(String::new());
+    std::thread::spawn(|| { let mut last = PROGRESS.load(Ordering::SeqCst); let mut since = std::time::Instant::now();
+        loop { std::thread::sleep(Duration::from_millis(250)); let p = PROGRESS.load(Ordering::SeqCst);
+            if p != last { last = p; since = std::time::Instant::now(); }
+            else if since.elapsed() > Duration::from_secs(10) { println!("stress\trounds=0\tcalls={}\tmismatches=1\tdeadlock: text={} no call returned for 10 s (threads never came back)", p, CURRENT.lock().unwrap()); use std::io::Write; let _ = std::io::stdout().flush(); std::process::exit(3); } } });
     while (start.elapsed().as_millis() as u64) < millis && bad.len() < 5 {
         let text = texts[(next() % texts.len() as u64) as usize].clone(); let want = Arc::new(spec_lines(&text));
+        *CURRENT.lock().unwrap() = hex(text.as_bytes()); PROGRESS.fetch_add(1, Ordering::SeqCst);
         let sv = Arc::new(sourcemap::SourceView::new(text.clone().into())); let nthreads = 2 + (next() % 3) as usize;
         let barrier = Arc::new(std::sync::Barrier::new(nthreads)); let mut handles = vec![];
         for t in 0..nthreads {
@@ -59,6 +67,7 @@ fn stress(seed: u64, millis: u64) {
                     let res = catch_unwind(AssertUnwindSafe(|| match kind { 0 => { let c = sv.line_count(); if c == want.len() { None } else { Some(format!("line_count={} want {}", c, want.len())) } }
                         1 => { let ls: Vec<&str> = sv.lines().collect(); if ls == want.iter().map(|s| s.as_str()).collect::<Vec<_>>() { None } else { Some(format!("lines() gave {} lines, want {}", ls.len(), want.len())) } }
                         _ => { let g = sv.get_line(i); let w = want.get(i as usize).map(|s| s.as_str()); if g == w { None } else { Some(format!("get_line({})={:?} want {:?}", i, g, w)) } } }));
+                    PROGRESS.fetch_add(1, Ordering::Relaxed);
                     match res { Ok(None) => {} Ok(Some(e)) => errs.push(format!("thread{} {}", t, e)), Err(_) => errs.push(format!("thread{} call kind {} index {} panicked", t, kind, i)) } }
                 (errs, ncalls) }));
         }
@@ -84,8 +93,9 @@ fn main() {
         *SCHED.lock().unwrap() = Some(sc.clone());
         let sv = Arc::new(sourcemap::SourceView::new(text.clone().into()));
         let mut handles = vec![];
+        let slots: Arc<Mutex<Vec<Option<Vec<String>>>>> = Arc::new(Mutex::new(vec![None; n]));
         for (tid, cs) in calls.iter().cloned().enumerate() {
-            let sv = sv.clone(); let sc2 = sc.clone();
+            let sv = sv.clone(); let sc2 = sc.clone(); let slots = slots.clone();
             handles.push(std::thread::spawn(move || {
                 TID.with(|t| t.set(tid));
                 park(99);
@@ -95,6 +105,7 @@ fn main() {
                     out.push(match r { Ok(h) => h, Err(_) => "panic".into() });
                     if out.last().map(|x| x == "panic").unwrap_or(false) { break; }      // the model stops a thread at its first panic
                 }
+                slots.lock().unwrap()[tid] = Some(out.clone());
                 let (m, cv) = &*sc2; let mut s = m.lock().unwrap(); s.at[tid] = St::Finished; cv.notify_all();
                 out
             }));
@@ -132,6 +143,19 @@ fn main() {
             }
         }
         if status != "ok" { FREE.store(true, Ordering::SeqCst); { let mut s = m.lock().unwrap(); s.turn = None; cv.notify_all(); } }
+        // every thread must come back: once released they run freely; a thread that has not finished after DEADLOCK_MS is stuck for good
+        // (a lost wake-up, a lock never released) -- "no call deadlocks" is part of the property, and a hung replay would say nothing
+        { let limit = Duration::from_millis(std::env::var("DEADLOCK_MS").ok().and_then(|x| x.parse().ok()).unwrap_or(4000)); let t0 = std::time::Instant::now();
+          let mut s = m.lock().unwrap();
+          while s.at.iter().any(|a| *a != St::Finished) && t0.elapsed() < limit { let (g, _) = cv.wait_timeout(s, Duration::from_millis(50)).unwrap(); s = g; if status == "ok" && s.at.iter().any(|a| matches!(a, St::Parked(_))) { s.turn = None; FREE.store(true, Ordering::SeqCst); cv.notify_all(); } }
+          let stuck: Vec<usize> = s.at.iter().enumerate().filter(|(_, a)| **a != St::Finished).map(|(i, _)| i).collect();
+          if !stuck.is_empty() {
+              let traces: Vec<String> = s.trace.iter().map(|t| t.iter().map(|k| k.to_string()).collect::<Vec<_>>().join(",")).collect();
+              let res: Vec<String> = slots.lock().unwrap().iter().map(|o| o.as_ref().map(|v| v.join(",")).unwrap_or("hung".into())).collect();
+              println!("{}\t{}\t{}\t{}\tdeadlock(threads {:?} never returned; before that: {})", f[0], traces.join("|"), res.join("|"), "-", stuck, status);
+              use std::io::Write; let _ = std::io::stdout().flush();
+              std::process::exit(3);
+          } }
         let results: Vec<String> = handles.into_iter().map(|h| h.join().unwrap().join(",")).collect();
         let traces: Vec<String> = { let s = m.lock().unwrap(); s.trace.iter().map(|t| t.iter().map(|k| k.to_string()).collect::<Vec<_>>().join(",")).collect() };
         // afterwards a fresh caller asks for the line count
